@@ -224,3 +224,14 @@ seed(95, "mantis_ecb_crypt_tweaked stores the first output half before reading t
      ("src/mantis-cipher.c", "void mantis_ecb_crypt_tweaked\n    (void *output, const void *input, const void *tweak, const MantisKey_t *ks)\n{", "void mantis_ecb_crypt_tweaked\n    (void *output, const void *input, const void *tweak, const MantisKey_t *ks)\n{\n    WRITE_WORD32(output, 0, READ_WORD32(input, 0));"))
 seed(96, "set_tweak copies sizeof(tweak field) bytes from a short caller tweak (over-read)", ["C09.R2", "C04.R3"],
      ("src/skinny64-cipher.c", "        memcpy(ks->tweak, tweak, tweak_size);\n        memset(ks->tweak + tweak_size, 0, sizeof(ks->tweak) - tweak_size);", "        memcpy(ks->tweak, tweak, sizeof(ks->tweak));"))
+
+seed(43, "row[1] update dropped in the 32-bit #else of skinny128_set_tk2", ["C12.R2"],
+     ("src/skinny128-cipher.c", "        ks->schedule[index].row[0] ^= tk.row[0];\n        ks->schedule[index].row[1] ^= tk.row[1];\n#endif\n\n        /* Permute TK2 for the next round */", "        ks->schedule[index].row[0] ^= tk.row[0];\n#endif\n\n        /* Permute TK2 for the next round */"))
+seed(97, "32-bit #else of the vec128 unit fails to compile (typo in a path the default build never sees)", ["C12.R1"],
+     ("src/skinny128-ctr-vec128.c", "        skinny128_sbox_two(&row0, &row1);\n        skinny128_sbox_two(&row2, &row3);", "        skinny128_sbox_two(&row0, &row1);\n        skinny128_sbox_two(&row2, &row3, 0);"))
+seed(98, "byte-order-neutral mantis_unpack_block (#else) reads 6 bytes instead of 8", ["C12.R2", "C09.R1"],
+     ("src/mantis-cipher.c", "    block->row[3] = READ_WORD16(buf, offset + 6);", "    block->row[3] = block->row[2];"))
+seed(99, "unaligned-off path of skinny128_xor loops over 8 bytes instead of 16", ["C12.R2"],
+     ("src/skinny-internal.h", "    for (posn = 0; posn < 16; ++posn) {", "    for (posn = 0; posn < 8; ++posn) {"))
+seed(100, "32-bit word path of skinny64 set_tweak adds a length restriction (tweak_size < 4 rejected) absent from the 64-bit path", ["C12.R2", "C14.R5"],
+     ("src/skinny64-cipher.c", "    if (!ks || tweak_size < 1 || tweak_size > SKINNY64_BLOCK_SIZE) {\n        return 0;\n    }\n\n    /* Read the new tweak value and swap with the original */", "    if (!ks || tweak_size < 1 || tweak_size > SKINNY64_BLOCK_SIZE) {\n        return 0;\n    }\n#if !SKINNY_64BIT\n    if (tweak_size < 4)\n        return 0;\n#endif\n\n    /* Read the new tweak value and swap with the original */"))
